@@ -232,3 +232,67 @@ pub fn verify_sig(signer: &KeySpec, signed: &[u8], sig: &[u8]) -> Result<(), Str
 		false => Err(format!("OpenSSL rejects the signature under the signer's public key ({})", signer.label())),
 	}
 }
+
+// ---------------------------------------------------------------------------------------------
+// Validator-friendly shapes (C03, C12, C18): inside what OpenSSL and webpki document.
+
+/// A verification instant (after the epoch, before 2100) and validity windows around it.
+pub fn window_around(at: i64, before: i64, after: i64) -> (TimeSpec, TimeSpec) {
+	(
+		TimeSpec { unix: at - before, nanos: 0, offset: 0 },
+		TimeSpec { unix: at + after, nanos: 0, offset: 0 },
+	)
+}
+
+pub fn hostname_strategy() -> BoxedStrategy<String> {
+	proptest::collection::vec("[a-z][a-z0-9]{0,7}", 2..4).prop_map(|v| v.join(".")).boxed()
+}
+
+/// Leaf parameters every validator involved accepts when the chain is sound: end entity,
+/// sane SANs, EKU empty or including serverAuth, non-critical custom extensions.
+pub fn leaf_spec(at: i64) -> BoxedStrategy<CertSpec> {
+	(
+		gen::dn(4, true, false),
+		proptest::collection::vec(
+			prop_oneof![hostname_strategy().prop_map(SanSpec::Dns), gen::ip_bytes().prop_map(SanSpec::Ip), hostname_strategy().prop_map(|h| SanSpec::Rfc822(format!("u@{h}")))],
+			1..4,
+		),
+		prop_oneof![Just(vec![]), Just(vec![EkuSpec::ServerAuth]), Just(vec![EkuSpec::ClientAuth, EkuSpec::ServerAuth]), Just(vec![EkuSpec::ServerAuth, EkuSpec::CodeSigning])],
+		prop_oneof![Just(vec![]), Just(vec![0u8]), Just(vec![0u8, 2])],
+		gen::kid(),
+		any::<bool>(),
+		(1i64..400 * 86400, 1i64..4000 * 86400),
+		prop::option::of(gen::conformant_serial()),
+		prop_oneof![Just(IsCaSpec::NoCa), Just(IsCaSpec::ExplicitNoCa)],
+		proptest::collection::vec(gen::custom_ext(true), 0..2),
+	)
+		.prop_map(move |(dn, sans, ekus, ku, kid, use_aki, (b, a), serial, is_ca, custom)| {
+			let (not_before, not_after) = window_around(at, b, a);
+			let mut s = CertSpec::minimal();
+			s.dn = dn;
+			s.sans = sans;
+			s.ekus = ekus;
+			s.key_usages = ku;
+			s.kid = kid;
+			s.use_aki = use_aki;
+			s.not_before = not_before;
+			s.not_after = not_after;
+			s.serial = serial;
+			s.is_ca = is_ca;
+			s.custom_exts = custom.into_iter().map(|mut c| { c.critical = false; c }).filter(|c| !c.acme).collect();
+			s
+		})
+		.boxed()
+}
+
+/// Keys both validators can verify signatures of (webpki has no P-521).
+pub fn validator_key() -> BoxedStrategy<KeySpec> {
+	(
+		prop_oneof![4 => Just(KeyAlg::P256), 3 => Just(KeyAlg::P384), 4 => Just(KeyAlg::Ed25519), 1 => Just(KeyAlg::Rsa2048)],
+		any::<u8>(),
+		gen::rsa_hash(),
+		prop::bool::weighted(0.1),
+	)
+		.prop_map(|(alg, idx, rsa_hash, remote)| KeySpec { alg, idx, rsa_hash, remote: remote || !cfg!(feature = "crypto") })
+		.boxed()
+}
